@@ -158,7 +158,7 @@ def rcontent(rng, depth, callable_names, in_body, budget):
                 if rng.random() < 0.5:
                     args.append({"named": False, "key": [], "val": v})
                 else:
-                    key = rng.choice([["x"], ["y"], ["1"], ["2"], ["SP", "x", "SP"], ["NL", "y"]])
+                    key = rng.choice([["x"], ["y"], ["1"], ["2"], ["SP", "x", "SP"], ["NL", "y"], ["1", "SP"], ["SP", "2", "NL"], ["x", "SP"]])
                     args.append({"named": True, "key": [T(key)], "val": v})
             c.append({"k": "c", "name": nm, "args": args})
         elif r < 0.92:
